@@ -338,10 +338,13 @@ func (p *parser) position(idx file.Idx) file.Position {
 	position.Filename = p.file.Name()
 	line, last := lineCount(str)
 	position.Line = 1 + line
-	if last >= 0 {
-		position.Column = offset - last
-	} else {
-		position.Column = 1 + len(str)
+	// The column counts characters (UTF-16 code units) after the last line terminator, not bytes.
+	position.Column = 1
+	for _, chr := range str[last+1:] {
+		if chr >= 0x10000 {
+			position.Column++
+		}
+		position.Column++
 	}
 
 	return position
